@@ -1110,3 +1110,99 @@ Proof.
   - left. auto.
   - right. exists rt, (kt0 ++ bt). repeat split; auto. rewrite forallb_app, (kt_ok_tok _ _ Hok), H4. reflexivity.
 Qed.
+
+(* ------------------------------------------------------------------ *)
+(* request level: roots_lookup = spec_lookup, including the tsr outcome *)
+(* ------------------------------------------------------------------ *)
+Definition lres_sres (r : lres) : option sres :=
+  match r with
+  | Found None _ _ _ => Some SNone
+  | Found (Some n) t pss tpss =>
+      match nroute n with
+      | Some rt => Some (if t then STsr (rpat rt) tpss else SDirect (rpat rt) pss)
+      | None => None
+      end
+  | _ => None
+  end.
+
+Lemma spec_lookup_path_only pats host path :
+  Forall (fun p => is_path_pattern p = true) pats ->
+  spec_lookup pats host path =
+  match select_in pats host path false with
+  | Some x => mk_res false x
+  | None => match select_tsr_in pats host path false with Some x => mk_res true x | None => SNone end
+  end.
+Proof.
+  intros H. unfold spec_lookup.
+  assert (filter (fun p => negb (is_path_pattern p)) pats = []) as ->.
+  { induction H as [|p l Hp _ IH]; simpl; auto. rewrite Hp. simpl. exact IH. }
+  reflexivity.
+Qed.
+
+Theorem lbp_eq_spec_tsr t host path fuel :
+  pwf [] t -> starts_with "/" (nkey t) = true -> path <> [] -> okpath path = true -> m2_fuel path t <= fuel ->
+  lres_sres (lookup_by_path fuel t path false [] []) = Some (spec_lookup (map rpat (routes_of_node t)) host path).
+Proof.
+  intros Hwf Hsl Hne Hok Hf.
+  rewrite spec_lookup_path_only by (apply pwf_routes_path; auto).
+  pose proof (lbp_eq_m2t t path false fuel Hwf Hne Hf) as Ht.
+  pose proof (lbp_eq_m2 t path false fuel Hwf Hf) as Hd.
+  pose proof (lbp_param_eq_spec t host path fuel Hwf Hsl Hf (or_introl Hok)) as Hs.
+  unfold spec_direct in Hs.
+  destruct (m2t (has_suffix_slash path) None t path) as [l vals|c] eqn:Em; cbn [tsr_res] in Ht.
+  - (* direct *)
+    destruct Ht as (l' & tps' & Er & Hl). rewrite Er in *. cbn [addp app] in *.
+    destruct (m2 t path) as [[l2 v2]|] eqn:Em2.
+    + destruct Hd as (l3 & tps3 & E3 & Hl3). inversion E3; subst l3 tps3.
+      destruct (m2_sound _ _ _ _ _ Hwf Em2) as (rt & bt & Hrt2 & _).
+      cbn [direct_obs lres_sres] in *. rewrite Hl3, Hrt2 in *.
+      destruct (select_in (map rpat (routes_of_node t)) host path false) as [[p vs]|]; [|discriminate].
+      inversion Hs; subst. reflexivity.
+    + destruct Hd as (a & b & c & d & E & Hi). inversion E; subst. specialize (Hi eq_refl). discriminate.
+  - (* no direct match: the specification has none either, and the tsr candidate is the specification's *)
+    assert (Hnd : direct_obs (lookup_by_path fuel t path false [] []) = None).
+    { destruct c as [[l vals]|].
+      - destruct Ht as (l' & ps' & -> & _). reflexivity.
+      - destruct Ht as (ps' & ->). reflexivity. }
+    rewrite Hnd in Hs.
+    destruct (select_in (map rpat (routes_of_node t)) host path false) as [[p vs]|]; [discriminate|].
+    rewrite (m2t_eq_spec_tsr t host path c Hwf Hsl Hne Hok Em).
+    destruct c as [[l vals]|]; cbn [res_of].
+    + destruct Ht as (l' & ps' & -> & Hl). cbn [lres_sres addp app mk_res].
+      destruct (m2t_sound _ t [] None path l vals Hwf Em) as [(Hbad & _)|(rt & bt & H1 & H2 & H3 & H4 & H5)]; [discriminate|].
+      rewrite Hl, H1. unfold lpat. rewrite H1. simpl in H3. f_equal. f_equal.
+      unfold name_values. rewrite H3, tokenize_render by exact H4. rewrite <- H5. simpl. symmetry. apply combine_fst_snd.
+    + destruct Ht as (ps' & ->). reflexivity.
+Qed.
+
+Theorem roots_lookup_eq_spec_tsr r m t host path fuel :
+  path_only_root r m t -> pwf [] t -> path <> [] -> okpath path = true -> m2_fuel path t <= fuel ->
+  lres_sres (roots_lookup fuel r m host path false [] []) = Some (spec_lookup (method_patterns r m) host path).
+Proof.
+  intros Hr Hwf Hne Hok Hf.
+  rewrite (roots_lookup_path_only _ _ _ _ _ _ _ _ t Hr), (method_patterns_path_only _ _ t Hr).
+  destruct Hr as (i & root & _ & _ & _ & _ & Hsl). apply lbp_eq_spec_tsr; auto.
+Qed.
+
+(* no trailing-slash action for the path "/" (nor any one-byte path) *)
+Lemma spec_lookup_short_no_tsr pats host path p ps : List.length path < 2 -> spec_lookup pats host path <> STsr p ps.
+Proof.
+  intros Hl. unfold spec_lookup.
+  assert (Hn : forall hm, select_tsr_in pats host path hm = None)
+    by (intros hm; destruct path as [|a [|b r]]; simpl in *; try lia; reflexivity).
+  rewrite !Hn.
+  destruct (negb (Spec.is_nil (filter (fun p0 => negb (is_path_pattern p0)) pats)) && negb (Spec.is_nil host)).
+  - destruct (select_in pats host path true) as [[p1 v1]|]; [simpl; discriminate|].
+    destruct (select_in pats host path false) as [[p1 v1]|]; simpl; discriminate.
+  - destruct (select_in pats host path false) as [[p1 v1]|]; simpl; discriminate.
+Qed.
+
+Theorem roots_lookup_root_no_tsr r m t host fuel n pss tpss :
+  path_only_root r m t -> pwf [] t -> m2_fuel ["/"] t <= fuel ->
+  roots_lookup fuel r m host ["/"] false [] [] <> Found (Some n) true pss tpss.
+Proof.
+  intros Hr Hwf Hf E.
+  pose proof (roots_lookup_eq_spec_tsr r m t host ["/"] fuel Hr Hwf ltac:(discriminate) eq_refl Hf) as H.
+  rewrite E in H. cbn [lres_sres] in H. destruct (nroute n) as [rt|]; [|discriminate].
+  inversion H as [H0]. symmetry in H0. revert H0. apply spec_lookup_short_no_tsr. simpl. lia.
+Qed.
